@@ -648,7 +648,12 @@ impl SearchIndex {
         // Vacuum to remove completely
         self.index.vacuum();
 
-        self.statistics.count.remove(*folder_id, doc_info);
+        // Only update the statistics when a document was removed,
+        // a delete event may be replayed for a secret that has
+        // already been removed from the index
+        if key.is_some() {
+            self.statistics.count.remove(*folder_id, doc_info);
+        }
     }
 
     /// Remove all the documents for a given vault identifier from the index.
